@@ -189,8 +189,13 @@ def run_cli(case):
     if case["alpha1"]:
         o["alpha1"] = case["alpha1"]
         o["alpha2"] = case["alpha2"]
+    if case.get("via_rev"):
+        # the documented second way to give the step count: StepsPerRevolution overwrites StepsPerTs (which keeps a decoy)
+        d0 = cfggen.derive(o)
+        o["StepsPerRevolution"] = float(steps * d0["fs"] / d0["frev"])
+        o["StepsPerTs"] = case["decoy"]
     r = cli.run(["-c", "/dev/null", "-o", "r.h5"] + cli.optargs(o), wd)
-    cls = ["cli", "linear" if case["linear"] else "sinus", "it%d" % case["it"]]
+    cls = ["cli", "linear" if case["linear"] else "sinus", "it%d" % case["it"], "StepsPerRevolution" if case.get("via_rev") else "StepsPerTs"]
     if r.rc != 0 or "Finished." not in r.out:
         return Outcome(False, True, cls, "run failed: %s %s" % (r.out[-300:], r.err[-300:]), sig="c03:cli:runfail")
     h = cli.H5(os.path.join(wd, "r.h5"))
@@ -222,6 +227,8 @@ def cli_cases(draw):
              sx=float(draw(st.integers(-ms, ms))) if draw(st.booleans()) else 0.0,
              sy=float(draw(st.integers(-ms, ms))) if draw(st.booleans()) else 0.0,
              gauss=draw(gaussians(L, n, it, ms)), alpha1=0.0, alpha2=0.0)
+    c["via_rev"] = draw(st.integers(0, 2)) == 0
+    c["decoy"] = draw(st.sampled_from([1000, 50, 333]))
     if draw(st.integers(0, 3)) == 0:
         c["alpha1"] = gen.f32(draw(st.floats(-2e-3, 2e-3)))
         c["alpha2"] = gen.f32(draw(st.floats(-1e-2, 1e-2)))
